@@ -59,6 +59,19 @@ def cases(rng, tier):
         yield ("reconstruct", {"labels": ["A", "B"], "form": "dict", "nobs": 2, "subobs": [["ZX", "XZ"], ["ZI", "IZ"]],
                                "coeffs": [frac(Fraction(3, 2)), frac(Fraction(-1, 2)), frac(Fraction(1, 4))], "variant": "v1shots", "seed": 31 + k,
                                "drop": False, "extra": False, "strkeys": True, "alias": True, "rot_results": 0, "rot_obs": 0, "always_oracle": True})
+    # SamplerV2 pubs that carry the metadata a sampler attaches (metadata["shots"] = the size of the job that produced the pub), while the
+    # bit arrays hold (a) exactly those shots, (b) more rows -- a second run merged in with BitArray.concatenate_shots, first job's
+    # metadata kept --, (c) fewer rows -- post-selected / slice_shots'ed data re-wrapped with the original metadata.  E is the average
+    # over the outcomes present; V1 on the same data gives the same value.  Mixed with a V1 partition, and in the single-partition form.
+    for j, (meta, labels, form, vs) in enumerate([("consistent", ["A", "B"], "dict", None), ("merged", ["A", "B"], "dict", None),
+                                                   ("postselected", ["A", "B"], "dict", None), ("merged", ["A"], "single", None),
+                                                   ("postselected", ["A"], "single", None),
+                                                   ("merged", ["A", "B", "C"], "dict", ["v2", "v1shots", "v2"]),
+                                                   ("postselected", ["A", "B", "C"], "dict", ["v1shots", "v2", "v2"])]):
+        yield ("reconstruct", {"labels": labels, "form": form, "nobs": 3, "subobs": [["ZXI", "XZI", "IIY"], ["ZI", "IZ", "XX"], ["Y", "Z", "I"]][: len(labels)],
+                               "coeffs": [frac(Fraction(3, 2)), frac(Fraction(-5, 4)), frac(Fraction(1, 2))][: 2 + j % 2], "variant": "v2",
+                               "variants": vs, "meta": meta, "seed": 41 + j, "drop": False, "extra": False, "strkeys": False,
+                               "rot_results": 0, "rot_obs": 0, "always_oracle": True})
     n = 120 if tier == "quick" else 2500
     for t in range(n):
         nparts = rng.randint(1, 3)
@@ -90,6 +103,9 @@ def cases(rng, tier):
                    # the results dict / the observables dict may have been filled in any order of the labels
                    "rot_results": rng.randrange(nparts) if rng.random() < 0.6 else 0,
                    "rot_obs": rng.randrange(nparts) if rng.random() < 0.3 else 0}
+        if v == "v2" or "v2" in (payload["variants"] or []):
+            # about half of the V2 inputs carry sampler metadata (derived from the seed already drawn: no extra draw from the stream)
+            payload["meta"] = [None, None, None, "consistent", "merged", "postselected"][payload["seed"] % 6]
         yield ("reconstruct", payload)
     m = 150 if tier == "quick" else 3000
     for t in range(m):
@@ -159,8 +175,14 @@ def _build(payload):
                     nbo, nbq = (nb + 7) // 8, (nqpd + 7) // 8
                     oa = np.array([[(o >> (8 * (nbo - 1 - j))) & 255 for j in range(nbo)] for o, q in shots], dtype=np.uint8)
                     qa = np.array([[(q >> (8 * (nbq - 1 - j))) & 255 for j in range(nbq)] for o, q in shots], dtype=np.uint8)
-                    exps.append(SamplerPubResult(DataBin(observable_measurements=BitArray(oa, nb),
-                                                         qpd_measurements=BitArray(qa, nqpd), shape=())))
+                    data = DataBin(observable_measurements=BitArray(oa, nb), qpd_measurements=BitArray(qa, nqpd), shape=())
+                    meta = payload.get("meta")
+                    if meta:
+                        # the shot count the (first) job reported; the rows present are `shots` (no extra random draws: derived from ns)
+                        m_shots = {"consistent": ns, "merged": max(1, ns // 2), "postselected": 2 * ns}[meta]
+                        exps.append(SamplerPubResult(data, metadata={"shots": m_shots, "circuit_metadata": {}}))
+                    else:
+                        exps.append(SamplerPubResult(data))
                     mexps.append({"v2": [[o, q] for o, q in shots]})
                 else:
                     fmt = rng.choice(["int", "bin", "hex"])
@@ -259,7 +281,8 @@ def compare(kind, payload, real, model):
 def describe(kind, payload):
     if kind == "reconstruct":
         return {"variant": payload["variant"], "nparts": len(payload["labels"]), "form": payload["form"],
-                "max_qubits": max(len(s[0]) for s in payload["subobs"]), "drop": payload["drop"]}
+                "max_qubits": max(len(s[0]) for s in payload["subobs"]), "drop": payload["drop"],
+                "v2_metadata": payload.get("meta") or "none"}
     o = payload["outcome"]
     return {"outcome_type": "int" if isinstance(o, int) else ("hex" if o[:2].lower() == "0x" else "str")}
 
@@ -343,7 +366,12 @@ def oracle(kind, payload):
             ref[k] += term
     gotf = [Fraction(float(x)) for x in got]
     if any(abs(a - b) > Fraction(1, 10 ** 9) for a, b in zip(gotf, ref)) or len(gotf) != len(ref):
-        return f"reconstructed {[float(x) for x in gotf]} but estimator definition gives {[float(x) for x in ref]}"
+        how = ""
+        if payload.get("meta"):
+            how = (f" (V2 pubs carry metadata['shots'] -- {payload['meta']}: "
+                   + {"consistent": "equal to", "merged": "smaller than", "postselected": "larger than"}[payload["meta"]]
+                   + " the number of rows present in the bit arrays; E is the average over the rows present)")
+        return f"reconstructed {[float(x) for x in gotf]} but estimator definition gives {[float(x) for x in ref]}{how}"
     return None
 
 
